@@ -225,7 +225,7 @@ def lit_eq(c, o):
 def nontrivial_eq(c, o):
     if c["rel"] == "invalid" or (c["rel"] == "same" and c["t"][0] == c["t"][1]):
         return None
-    return (c["W"], c["rel"], c["t"])
+    return (c["W"], c["rel"], tuple(c["t"]))
 
 
 def describe_eq(c, o):
